@@ -179,6 +179,8 @@ def rule_cli_generate(ctx):
                     key = c[2][1]
                 elif c[0] == 'match' and c[2][0] == 'ctor' and c[2][1].endswith('None'):
                     key = '<absent>'
+                elif c[0] == 'match' and c[2][0] == 'not' and c[2][1][0] == 'ctor' and c[2][1][1].endswith('Some'):
+                    key = '<absent>'      # `let Some(x) = arg else { return .. }`
                 elif c[0] == 'match' and c[2][0] in ('wild', 'bind') and key is None:
                     key = '<other>'
             name = leaf[1].split('::')[-1] if leaf[0] in ('ctor', 'global') else (leaf[1].split('::')[-1] if leaf[0] == 'agg' else leaf[0])
@@ -593,7 +595,13 @@ def rule_introspect(ctx):
                 if undec or cur is None or cur.get('k') != 'struct':
                     obs.append(undecided('DOC-TABLE', inst, 'cannot follow the assignments (%s)' % undec, fn.loc))
                     continue
-                table_verdict(inst, mods.get(id(cur)), cur.get('sp', ''))
+                m_ = mods.get(id(cur))
+                if m_ is None and (one, url) in computed and computed[(one, url)][1] is cur:
+                    m_ = computed[(one, url)][0]     # one literal whose members are selected by the flags
+                if m_ is None:
+                    obs.append(undecided('DOC-TABLE', inst, 'the literal sent carries no decided document', cur.get('sp', '')))
+                    continue
+                table_verdict(inst, m_, cur.get('sp', ''))
     # --- STATUS + OUT-AFTER-SUCCESS (decided over introspect_schema together with the helpers it delegates to)
 
     def is_success_term(t):
@@ -705,6 +713,17 @@ def rule_introspect(ctx):
                             has_colon = True
         has_empty = any('is_empty' in g for g in gtxt)
         has_ws = any('split' in g and 'count' in g or 'whitespace' in g for g in gtxt)
+        # .. or, on the code: a rejecting `if` whose condition (through its named sub-expressions) splits the name at
+        # whitespace / tests its characters for whitespace, however the multiplicity test is spelled
+        for n in walk(h.body):
+            if n['k'] == 'if' and returns_err(n['then']):
+                for x in H.walk_through_locals(h, n['cond'], depth=5):
+                    if x['k'] == 'mcall' and x['method'] in ('split_whitespace', 'split_ascii_whitespace'):
+                        has_ws = True
+                    if x['k'] == 'path' and (x.get('res') or {}).get('path', '').endswith(('char::is_whitespace', 'char::is_ascii_whitespace')):
+                        has_ws = True
+                    if x['k'] == 'mcall' and x['method'] in ('is_whitespace', 'is_ascii_whitespace'):
+                        has_ws = True
         for name, good, what in (('colon', has_colon, 'input without a colon'), ('empty-name', has_empty, 'an empty header name'), ('whitespace-name', has_ws, 'a name containing whitespace')):
             if good:
                 obs.append(ok('HEADER-GUARDS', 'Header::from_str/' + name, '%s is refused' % what, h.loc))
